@@ -6,9 +6,13 @@ import suites
 from proto import enc
 
 TRUSTED_BASE = [
-    "Coq 8.16.1 kernel (coqc); vm_compute is not used by the C15 theorems; no native_compute",
+    "Coq 8.16.1 kernel (coqc); vm_compute only in the non-vacuity example of C15_programs; no native_compute",
     "axioms: none (Print Assumptions: Closed under the global context for every theorem)",
-    "hand-written model coq/Model/Path.v of yarl/_path.py: validated, not proved, by the correspondence suites below",
+    "yarl/_path.py: re-translated to Gallina from the source on every run by harness/gen_model.py (Python ast, ~230 lines, whitelisted "
+    "subset, fails closed with a stub) and proved equal to the hand-written model coq/Model/Path.v (C15_source_*); the translator's "
+    "reading of the Python subset (list order, pop under suppress(IndexError) = removelast, str indexing guards) is trusted and "
+    "cross-checked by the correspondence suites below",
+    "hand-written model coq/Model/Url.v of the entry points (constructor, build, modifiers, join): validated, not proved, by the URL-level suite",
     "Spec/Rds.v is my transcription of RFC 3986 5.2.4",
     "extraction (ExtrOcamlBasic only, no Extract Constant/Inductive of my own), ocaml/driver*.ml, OCaml 4.13.1",
     "harness: harness/core.py, impl_worker.py (exceptions compared by type only)",
